@@ -1,5 +1,6 @@
 SPECIFICATION Spec
-CONSTANTS Cases <- MQuick
+CONSTANTS Devs = {}
+          Cases <- MQuick
           GF = 4
           FPKeys = {}
 INVARIANTS StackIsRecursive EmitSafe EmitOnce NoFalseNegative ChainShape CountRight
